@@ -48,6 +48,7 @@ def rule_a(ctx):
         (LIN, "HeterogeneousLinearModel", {"scaling": N, "offset": N}, {"num_labels": N}),
         (KINT, "KernelInterpolation", {"kernel": 1, "values": N}, {"num_supports": N}),
     ]
+    RETURNS = []  # (class, dofs, value returned by update_model_parameters, nominal number of parameters) where a value is returned
     for mod, cname, sizes, fields in models:
         ctx.consult(mod)
         f = m.func(mod, f"{cname}.update_model_parameters")
@@ -67,7 +68,9 @@ def rule_a(ctx):
             fo = Folder(symbolic=True)
             label = f"{cname} dofs={dofs!r}"
             try:
-                fo.call(f.node, [me, params, dofs])
+                rv = fo.call(f.node, [me, params, dofs])
+                if rv is not None:
+                    RETURNS.append((cname, dofs, rv, sum(sizes.values())))
             except Raised as e:
                 ctx.ob(R, f.qname, f"{label}: accepted", False, f"raises {e.name} at `{norm(e.node)[:60] if e.node is not None else ''}`", e.node or f.node)
                 continue
@@ -111,11 +114,20 @@ def rule_a(ctx):
     # a list of (position, dofs) pairs: the k-th addressed sub-model reads from where the block of the (k-1)-th addressed one ends
     # (block size = its num_parameters), whatever its position in self.models
     npar = [2, 3]
-    for order in ([1], [0, 1], [1, 0], [0], [1, 1]):
+    # what a sub-model's update_model_parameters hands back: nothing in the documented interface; if some class returns a number that differs
+    # from its block size (a partial update reporting "1 entry read"), the routing is also folded with stand-ins that return it
+    rets = [None] + sorted({rv for _, _, rv, tot in RETURNS if isinstance(rv, int) and not isinstance(rv, bool) and rv != tot})[:1]
+    for order, ret in [(o, r_) for r_ in rets for o in ([1], [0, 1], [1, 0], [0], [1, 1])]:
         dofs = [(k, _Op("dofs", f"d{k}")) for k in order]
         fo = _F(symbolic=True)
         fo.func_stack.append(f.node)
         title = f"CombinedModel: dofs addressing sub-models {order}: the k-th addressed sub-model reads from the end of the block of the one addressed before"
+        if ret is not None:
+            who = next(f"{c_}.update_model_parameters(dofs={d_!r})" for c_, d_, rv, tot in RETURNS if rv == ret and rv != tot)
+            title += f" (sub-models returning {ret}, as {who} does)"
+        if True:
+            ms = [_O("m0", {"num_parameters": 2, "update_model_parameters": (lambda a2, k2, fo=fo: (fo.trace.append(Sym("m0.update_model_parameters", a2, k2)), ret)[1])}),
+                  _O("m1", {"num_parameters": 3, "update_model_parameters": (lambda a2, k2, fo=fo: (fo.trace.append(Sym("m1.update_model_parameters", a2, k2)), ret)[1])})]
         try:
             fo.call(f.node, [_O("self", {"models": ms}), P, dofs])
             got = [repr(t) for t in fo.trace if ".update_model_parameters(" in repr(t)]
@@ -718,7 +730,43 @@ def rule_h(ctx):
     ctx.floor(R, 1)
 
 
+def rule_i(ctx):
+    R = "C14.i"
+    ctx.rule(R, "a model evaluation depends on the signal and the parameters only: hidden-state analysis of every model class with entry "
+             "__call__ -- each read of an attribute that __call__ itself writes (the resized label cache) must be preceded by a write in the "
+             "same call, be guarded by a comparison of the current key with the cache (J2), or not depend on the call (J1); in particular "
+             "a cache that is refreshed from its own previous content makes the label-wise result depend on the shapes seen before")
+    from ..state import StateAnalysis
+
+    m = ctx.model
+    mods = ["darsia.signals.models.clipmodel", "darsia.signals.models.linearmodel", "darsia.signals.models.combinedmodel",
+            "darsia.signals.models.staticthresholdmodel", "darsia.signals.models.kernelinterpolation"]
+    seen = set()
+    n_cls = 0
+    for mn in mods:
+        ctx.consult(mn)
+        for k in m.mod(mn).classes.values():
+            if m.method(k, "__call__") is None:
+                continue
+            n_cls += 1
+            sa = StateAnalysis(m, k, ["__call__"])
+            ctx.stat("cfg_nodes", sa.stats["cfg_nodes"])
+            for f, n, a, kind, an, chain in sa.cross_call_reads():
+                key = (f.qname, a, n.text())
+                if key in seen:
+                    continue
+                seen.add(key)
+                ctx.instance(R)
+                ok, why = sa.justify(f, n, a, kind)
+                path = [f"L{x.line}: {x.text()[:80]}" for x in sa.witness if x.stmt is not None][:14]
+                ctx.ob(R, f.qname, f"{k.name}: read of self.{a} in `{n.text()[:70]}` does not depend on earlier calls", ok,
+                       f"{why}. A write-free path from the entry reaches the read, so the value returned by {' -> '.join(chain)} depends on the signals evaluated before", an, path=path, evidence=True)
+    ctx.need(n_cls >= 5, "fewer than 5 model classes with __call__ found")
+    ctx.floor(R, 2)
+
+
 def run(ctx):
+    rule_i(ctx)
     rule_a(ctx)
     rule_b(ctx)
     rule_c(ctx)
